@@ -143,6 +143,19 @@ def _get_mypy_asts(
     return package_ast + module_ast
 
 
+def _get_bound_type_fullname(callable_type: mypy_types.CallableType) -> str:
+    """Return the full name of the class a callable is bound to, or an empty string if there is none."""
+    # Newer mypy versions removed the "bound_args" attribute of CallableType
+    bound_args = getattr(callable_type, "bound_args", None)
+    if bound_args is not None:
+        if bound_args and hasattr(bound_args[0], "type"):
+            return bound_args[0].type.fullname
+        return ""
+    if callable_type.is_type_obj():
+        return callable_type.type_object().fullname
+    return ""
+
+
 def _get_aliases(result_types: dict, package_name: str) -> dict[str, set[str]]:
     aliases: dict[str, set[str]] = defaultdict(set)
     for key in result_types:
@@ -167,9 +180,7 @@ def _get_aliases(result_types: dict, package_name: str) -> dict[str, set[str]]:
                     ):
                         fullname = key.node.target.type.fullname
                     elif isinstance(type_value, mypy_types.CallableType):
-                        bound_args = type_value.bound_args
-                        if bound_args and hasattr(bound_args[0], "type"):
-                            fullname = bound_args[0].type.fullname  # type: ignore[union-attr]
+                        fullname = _get_bound_type_fullname(type_value)
                     elif hasattr(key, "node") and isinstance(key.node, mypy_nodes.Var):
                         fullname = key.node.fullname
 
@@ -186,8 +197,8 @@ def _get_aliases(result_types: dict, package_name: str) -> dict[str, set[str]]:
                     continue
 
             if in_package:
-                if isinstance(type_value, mypy_types.CallableType) and hasattr(type_value.bound_args[0], "type"):
-                    fullname = type_value.bound_args[0].type.fullname  # type: ignore[union-attr]
+                if isinstance(type_value, mypy_types.CallableType) and _get_bound_type_fullname(type_value):
+                    fullname = _get_bound_type_fullname(type_value)
                 elif isinstance(type_value, mypy_types.Instance):
                     fullname = type_value.type.fullname
                 elif isinstance(key, mypy_nodes.TypeVarExpr):
